@@ -1871,3 +1871,81 @@ func sortedKeys[V any](m map[string]V) []string {
 	sort.Strings(ks)
 	return ks
 }
+
+// splitGoal breaks a proof goal into independently provable parts: conjunctions are split, and a universally
+// quantified goal forall x. H => (A /\ B) becomes forall x. H => A and forall x. H => B (patterns restricted to the
+// terms that still occur).
+func splitGoal(g *Term) []*Term {
+	switch g.Op {
+	case "and":
+		var out []*Term
+		for _, a := range g.Args {
+			out = append(out, splitGoal(a)...)
+		}
+		return out
+	case "forall":
+		body := g.Args[0]
+		var hyp []*Term
+		for body.Op == "=>" {
+			hyp = append(hyp, body.Args[0])
+			body = body.Args[1]
+		}
+		parts := splitGoal(body)
+		if len(parts) <= 1 {
+			return []*Term{g}
+		}
+		var out []*Term
+		for _, p := range parts {
+			b := p
+			for i := len(hyp) - 1; i >= 0; i-- {
+				b = mkImplies(hyp[i], b)
+			}
+			var pats [][]*Term
+			for _, pat := range g.Pats {
+				ok := true
+				for _, pt := range pat {
+					if !occursIn(pt, b) {
+						ok = false
+					}
+				}
+				if ok {
+					pats = append(pats, pat)
+				}
+			}
+			out = append(out, mkQuant("forall", g.Bound, b, pats...))
+		}
+		return out
+	case "=>":
+		parts := splitGoal(g.Args[1])
+		if len(parts) <= 1 {
+			return []*Term{g}
+		}
+		var out []*Term
+		for _, p := range parts {
+			out = append(out, mkImplies(g.Args[0], p))
+		}
+		return out
+	}
+	return []*Term{g}
+}
+
+func occursIn(x, t *Term) bool {
+	seen := map[*Term]bool{}
+	var rec func(t *Term) bool
+	rec = func(t *Term) bool {
+		if t == x {
+			return true
+		}
+		if seen[t] {
+			return false
+		}
+		seen[t] = true
+		for _, a := range t.Args {
+			if rec(a) {
+				return true
+			}
+		}
+		return false
+	}
+	return rec(t)
+}
